@@ -389,6 +389,11 @@ func monC12(c *drv.Ctx) {
 				if text == "" {
 					bodies["empty message left out"] = append(append([]byte(nil), fTid...), 0)
 				}
+				// ... and fields of other implementations that reuse the ids 1 and 2 with other types are not the message and the type id
+				fCol1 := ref.EncI32(ref.EncFieldBegin(nil, ref.I32, 1), 31337)
+				fCol2 := ref.EncString(ref.EncFieldBegin(nil, ref.STRING, 2), "not-a-type-id")
+				bodies["id 1 reused as i32 in front"] = append(append(append(append([]byte(nil), fCol1...), fMsg...), fTid...), 0)
+				bodies["id 2 reused as string behind"] = append(append(append(append([]byte(nil), fMsg...), fTid...), fCol2...), 0)
 				for name, body := range bodies {
 					msg := append(append([]byte(nil), b[:hdr]...), body...)
 					v5 := &base.BaseResp{StatusMessage: "untouched", StatusCode: 99}
